@@ -904,6 +904,9 @@ func exprString(e spec.Expr) string {
 	case *spec.Cond:
 		return "(" + exprString(e.C) + " ? " + exprString(e.A) + " : " + exprString(e.B) + ")"
 	case *spec.Sel:
+		if te, ok := e.X.(*spec.TypeExpr); ok && te.Stars > 0 {
+			return "(" + te.String() + ")." + e.Name
+		}
 		return exprString(e.X) + "." + e.Name
 	case *spec.Index:
 		return exprString(e.X) + "[" + exprString(e.I) + "]"
